@@ -314,6 +314,11 @@ async fn exec_async(case: Arc<Case>) -> CaseResult {
             Err(_) => return CaseResult::Timeout(format!("pending {name} still hangs {bound:?} after the connection ended ({:?})", case.cause)),
         }
     }
+    // the connection has ended once closed() resolves (also a bounded-time obligation)
+    match tokio::time::timeout(bound, conn.closed()).await {
+        Ok(_) => {}
+        Err(_) => return CaseResult::Timeout(format!("closed() did not resolve {bound:?} after {:?}", case.cause)),
+    }
     // an opening future created before the end must fail when awaited now
     if let Some(o) = opening.take() {
         match tokio::time::timeout(bound, o).await {
